@@ -41,15 +41,15 @@ def streams(rng, tier, ctx):
                 # a burst of single-frame Unreliable / TimeSensitive-free packets larger than the window: the packets behind the window
                 # have their sequence ids but wait in the pending queue when the sync timer fires - the ideal network loses nothing,
                 # so every one of them has to arrive, in order
-                cfg["fw"] = r.pick([2, 4, 4, 8]); cfg["pw"] = r.pick([64, 4096]); cfg["allocA"] = cfg["allocB"] = 1_000_000
+                cfg["fw"] = r.pick([2, 2, 4]); cfg["pw"] = r.pick([64, 4096]); cfg["allocA"] = cfg["allocB"] = 1_000_000
                 cfg["bwA"] = cfg["bwB"] = 20_000_000
             sim = Sim(r, cfg, inter=it)
             lat = r.pick([0, 1_000_000, 20_000_000, 150_000_000]) if not big else r.pick([0, 1_000_000, 5_000_000])
             if slowlink:
-                lat = r.pick([1_500_000_000, 2_000_000_000, 2_500_000_000])
+                lat = r.pick([2_500_000_000, 4_000_000_000, 6_000_000_000])      # slow start sends about one frame per second at first
                 for _ in range(cfg["fw"] + r.range(1, 4)):
                     sim.send("A", r.below(2), 1, r.pick([1448, 1400, 1200]))      # Unreliable only: nothing enters the resend queue
-                sim.run(int(12_000_000_000 // 50_000_000), 50_000_000, Net(latency=lat), Net(latency=lat))
+                sim.run(int(30_000_000_000 // 50_000_000), 50_000_000, Net(latency=lat), Net(latency=lat))
             if burst:
                 lat = r.pick([5_000_000, 20_000_000])
                 def warm(sim, ep):
